@@ -116,6 +116,27 @@ Proof.
   destruct (Z.eqb_spec x i) as [->|Hne]; [reflexivity|]. apply IHr.
 Qed.
 
+(* the arena image (what C05 compares cell for cell with the real Allocator.storage): only the key field
+   of the rewritten cells changes; links, colours, values and the tree header stay *)
+Definition rewrite_cell (p : Z -> bool) (f : Z -> Z) (ic : Z * cell) : Z * cell :=
+  (fst ic, mkCell (if p (fst ic) then f (ckey (snd ic)) else ckey (snd ic)) (cval (snd ic)) (cparent (snd ic))
+                  (cleft (snd ic)) (cright (snd ic)) (cblack (snd ic))).
+
+Lemma map_keys_cells p f t : forall up, cells up (map_keys p f t) = map (rewrite_cell p f) (cells up t).
+Proof.
+  induction t as [|c l IHl i k v r IHr]; intros up; [reflexivity|].
+  cbn [map_keys cells]. rewrite map_app. cbn [map]. rewrite IHl, IHr, !map_keys_root_id. reflexivity.
+Qed.
+
+Lemma map_keys_header p f t : header_of (map_keys p f t) = header_of t.
+Proof.
+  unfold header_of. rewrite map_keys_root_id, map_keys_min_id, map_keys_max_id, map_keys_tsize. reflexivity.
+Qed.
+
+Theorem map_keys_arena p f t :
+  cells 0 (map_keys p f t) = map (rewrite_cell p f) (cells 0 t) /\ header_of (map_keys p f t) = header_of t.
+Proof. split; [apply map_keys_cells|apply map_keys_header]. Qed.
+
 (* the deliverable in one statement *)
 Theorem map_keys_spec p f t :
   elems (map_keys p f t) = map (rewrite_key p f) (elems t) /\
